@@ -239,11 +239,11 @@ pub fn run(args: &Args, property: &str) -> Out {
         return out;
     }
     let n = if orphan_leg {
-        args.n(800, 16_000)
+        args.n(8_000, 32_000)
     } else if background_leg {
-        args.n(320, 6_400)
+        args.n(3_200, 12_800)
     } else {
-        args.n(4_000, 160_000)
+        args.n(32_000, 320_000)
     };
     for idx in 0..n {
         if args.mine(idx) {
